@@ -229,7 +229,41 @@ func (self *Compiler) compileIdentExpression(node ast.AnalyzedIdentExpression) {
 // Generic expressions.
 //
 
+// Reports whether the code which is generated for a block leaves a value on the stack:
+// only a block with a trailing expression generates a value, unless its type is `null`.
+func blockLeavesValue(node ast.AnalyzedBlock) bool {
+	return node.Expression != nil && node.ResultType.Kind() != ast.NullTypeKind
+}
+
+// Reports whether the code which is generated for an expression leaves a value on the stack by itself.
+// Blocks, `if` and `try` generate what their block generates, a call of a function without result and an assignment generate no value.
+func leavesValue(node ast.AnalyzedExpression) bool {
+	switch node.Kind() {
+	case ast.BlockExpressionKind:
+		return blockLeavesValue(node.(ast.AnalyzedBlockExpression).Block)
+	case ast.IfExpressionKind:
+		return blockLeavesValue(node.(ast.AnalyzedIfExpression).ThenBlock)
+	case ast.TryExpressionKind:
+		return blockLeavesValue(node.(ast.AnalyzedTryExpression).TryBlock)
+	case ast.CallExpressionKind:
+		return node.(ast.AnalyzedCallExpression).ResultType.Kind() != ast.NullTypeKind
+	case ast.AssignExpressionKind:
+		return false
+	default:
+		return true
+	}
+}
+
+// Every expression leaves exactly one value on the stack: consumers (`let`, operators, list literals, ...) always pop one.
 func (self *Compiler) compileExpr(node ast.AnalyzedExpression) {
+	self.compileExprInner(node)
+
+	if !leavesValue(node) {
+		self.insert(newValueInstruction(Opcode_Copy_Push, *value.NewValueNull()), node.Span())
+	}
+}
+
+func (self *Compiler) compileExprInner(node ast.AnalyzedExpression) {
 	switch node.Kind() {
 	case ast.UnknownExpressionKind:
 		panic("Unreachable, this should not happen")
@@ -429,11 +463,7 @@ func (self *Compiler) compileExpr(node ast.AnalyzedExpression) {
 		}
 
 		default_branch := self.mangleLabel("match_default")
-		if node.DefaultArmAction != nil {
-			self.insert(newOneStringInstruction(Opcode_Jump, default_branch), node.Range)
-		} else {
-			self.insert(newOneStringInstruction(Opcode_Jump, after_branch), node.Range)
-		}
+		self.insert(newOneStringInstruction(Opcode_Jump, default_branch), node.Range)
 
 		// Each individual branch
 		for i, option := range node.Arms {
@@ -444,10 +474,13 @@ func (self *Compiler) compileExpr(node ast.AnalyzedExpression) {
 			self.insert(newOneStringInstruction(Opcode_Jump, after_branch), node.Range)
 		}
 
+		// No arm matched: the control value is still on the stack, like at the start of every arm.
+		self.insert(newOneStringInstruction(Opcode_Label, default_branch), node.Range)
+		self.insert(newPrimitiveInstruction(Opcode_Drop), node.Range)
 		if node.DefaultArmAction != nil {
-			self.insert(newOneStringInstruction(Opcode_Label, default_branch), node.Range)
 			self.compileExpr(*node.DefaultArmAction)
-			self.insert(newOneStringInstruction(Opcode_Jump, after_branch), node.Range)
+		} else {
+			self.insert(newValueInstruction(Opcode_Copy_Push, *value.NewValueNull()), node.Range)
 		}
 
 		self.insert(newOneStringInstruction(Opcode_Label, after_branch), node.Range)
